@@ -422,6 +422,9 @@ func drawC19(t *rapid.T, cli bool) C19Case {
 		// many files that each include a further file
 		tree = gen.WideNestedTree(t, gen.Shuffle(t, ds), rapid.IntRange(12, 60).Draw(t, "wideNestedN"))
 	}
+	if rapid.IntRange(0, 11).Draw(t, "deepChain") == 0 {
+		tree = gen.DeepChainTree(t, gen.Shuffle(t, ds), rapid.IntRange(17, 40).Draw(t, "chainDepth"))
+	}
 	c.Files, c.Main = tree.Files, tree.Main
 	names := tree.SortedNames()
 	leaf := names[rapid.IntRange(0, len(names)-1).Draw(t, "faultFile")]
